@@ -173,6 +173,46 @@ def run(ctx):
             ctx.count("region_kmeans" if len(recs) >= 100 else ("region_hirschberg_parallel" if max(len(s) for _, s in recs) >= 500 else "region_tree"))
         if len(ctx.samples) < 3:
             ctx.sample(dict(nseq=len(recs), maxlen=max(len(s) for _, s in recs), type=t, threads_tried=ths))
+    # the two Hirschberg halves of one step only run at the same time when the runtime allows a second level of parallelism
+    # (OMP_MAX_ACTIVE_LEVELS=2; with the default of one level the inner region is executed by one thread): few long sequences whose lengths sit on
+    # the sizes the DP work space grows to (256 * 1.5^k: 384, 576, 864, 1296) and just off them, repeated, against the serial build
+    nest_env = dict(C.SAN_ENV)
+    nest_env.update({"OMP_MAX_ACTIVE_LEVELS": "2", "OMP_NESTED": "true"})
+    for j in range(3 if ctx.quick else 16):
+        kind = rng.choice(["protein", "dna"])
+        alpha_ = gen.AA if kind == "protein" else gen.DNA
+        Lg = rng.choice([576, 576, 864, 1296, 575, 577, 600])
+        base = gen.rand_seq(rng, alpha_, Lg)
+        recs = [("n0", base)]
+        for k in range(rng.randint(2, 4)):
+            q = gen.mutate(rng, base, alpha_, 0.15, 0.03)
+            recs.append(("n%d" % (k + 1), q[:rng.randint(505, min(len(q), Lg - 1))]))
+        rng.shuffle(recs)
+        t = gen.fit_type(5, kind, recs)
+        ref = Case(recs, t, threads=1, fmt="fasta")
+        sysrun.run_cases(kvn, [ref])
+        if ref.crashed or ref.rc != 0:
+            fails.append(("reference run (no OpenMP) failed: %s" % ref.status, ref.describe()))
+            continue
+        vs = [Case(recs, t, threads=th, fmt="fasta", evlog=True, jitter=rng.choice([0, rng.randint(1, 10 ** 6)]), tag="threads=%d, two active levels, repeat %d" % (th, r_))
+              for th in (2, 4, 16) for r_ in range(4 if ctx.quick else 8)]
+        sysrun.run_cases(kvp, vs, env=nest_env, par=4)
+        for c in vs:
+            ctx.evaluations += 1
+            if c.crashed or c.rc != 0:
+                fails.append(("run failed or crashed with %s: %s" % (c.tag, c.status), dict(case=c.describe(), env="OMP_MAX_ACTIVE_LEVELS=2 OMP_NESTED=true")))
+                break
+            if c.outtext != ref.outtext:
+                fails.append(("alignment with %s differs from the serial (no-OpenMP) alignment" % c.tag,
+                              dict(case=c.describe(), env="OMP_MAX_ACTIVE_LEVELS=2 OMP_NESTED=true", serial=ref.outtext, got=c.outtext)))
+                break
+            why = validate_trace(c) if c.events else None
+            if why:
+                fails.append(("event log is not a linearisation of the task program: " + why, dict(case=c.describe(), env="OMP_MAX_ACTIVE_LEVELS=2", log=c.events[:4000])))
+                break
+            ctx.count("nested_level_runs")
+            if c.events and "-" in c.outtext:
+                ctx.nontriv((c.key(), c.threads, c.tag))
     # supporting footprint validator: ThreadSanitizer (+Archer) build, thorough tier only
     if not ctx.quick and not fails:
         try:
